@@ -12,7 +12,7 @@ import protos as _protos
 
 VERIF = _build.VERIF
 REC = np.dtype([("v0", "<f8"), ("v1", "<f8"), ("code", "<i4"), ("msghash", "<u4"), ("flags", "<u4"), ("leak", "<u4")])
-F_ERR, F_STDERR, F_SLOTPTR, F_SLOTMOD, F_EMPTYMSG, F_NULLOBJ, F_SAN, F_AUX = 1, 2, 4, 8, 16, 32, 64, 128
+F_ERR, F_STDERR, F_SLOTPTR, F_SLOTMOD, F_EMPTYMSG, F_NULLOBJ, F_SAN, F_AUX, F_ALLOCFAIL = 1, 2, 4, 8, 16, 32, 64, 128, 256
 M_SLOT, M_NULL, M_PREFILLED, M_MSG, M_TRACE, M_STDERR = 0, 1, 2, 4, 8, 16
 
 # internal (non XRL_EXTERN) functions the harness declares itself
@@ -156,6 +156,8 @@ class Xrl:
         extra = ["-no-pie"]
         if variant == "plain":
             extra += ["-DXDRV_TRACK"]
+        if variant == "fa":
+            extra += ["-DXDRV_TRACK", "-DXDRV_FA"]
         if variant in ("asan", "msan"):
             extra += ["-DXDRV_SAN"]
         h = os.path.join(VERIF, "harness")
